@@ -478,7 +478,7 @@ def structs_worker(args):
         created = []
 
         def new_su(e, name, flags):
-            text = llsym.c_string(e, name)
+            text = None          # the realized name is symbolic here (its rule: C11 'names')
             a = pystubs.new_ctype(e, L, mask(64), bv(simp(flags), 32), name=b'struct ?')
             e.mem.store(a, 1, 8)          # a new reference
             created.append((a, text, simp(flags)))
@@ -888,6 +888,8 @@ def pyinclude_worker(args):
 
 
 def dispatch(args):
+    global NAMES
+    NAMES = 'abc' if args[1] == 'quick' else 'abcd'
     return {'structs': structs_worker, 'consts': consts_worker, 'libattr': libattr_worker, 'enums': enums_worker, 'pyinclude': pyinclude_worker}[args[2]](args)
 
 
@@ -907,6 +909,8 @@ def run(chk):
         cases.append(P + ('libattr', s, True))
     for L in ((6, 8, 9, 12) if quick else (5, 6, 7, 8, 9, 10, 11, 12, 14, 18)):
         cases.append(P + ('pyinclude', L))
+    global NAMES
+    NAMES = 'abc' if quick else 'abcd'
     chk.bounds = {'include graphs': ', '.join('%s=%r' % (s, SHAPES[s]) for s in shapes),
                   'tables': '%s entries per module, one-letter names over %r, every flag combination of external/union/opaque; '
                             'every searched name; global tables: 1 entry in the asked module, 2 in the others' % ('; '.join('%s: %r' % (s, SIZES[s]) for s in shapes), NAMES)}
